@@ -20,9 +20,10 @@ FUNCTIONS = ['uxarray.grid.connectivity._build_edge_face_connectivity',
     'uxarray.core.gradient._calculate_edge_face_difference@rank1',
     'uxarray.core.gradient._calculate_edge_face_difference@rank2',
     'uxarray.core.gradient._calculate_grad_on_edge_from_faces@rank1',
-    'uxarray.core.gradient._calculate_grad_on_edge_from_faces@rank2']
+    'uxarray.core.gradient._calculate_grad_on_edge_from_faces@rank2',
+    'uxarray.grid.slice._slice_face_indices']
 STANDINS = ["incidence", "consumers"]
 ASSUMPTIONS = []
 EXPLANATION = "builders under contract + bounded stand-in"
-LEVEL_TEXT = 'the edge kernels of difference / gradient proved not to write the edge-face table of the grid they are handed (frame obligations); _build_edge_face_connectivity proved with loop invariants for every manifold face-edge table (ghost fa/fb/pos): f listed in row e iff e is an edge of f, boundary = (face, FILL); _build_node_faces_connectivity proved (four loop invariants over the dict-of-lists state): f listed in row n iff n is a corner of f, padding only at the end, standard dtype; _construct_hole_edge_indices proved (exactly the one-face edges, increasing); MPAS cellsOnCell / cellsOnVertex / verticesOnCell parsers proved (source-supplied tables re-indexed, padding behind nEdgesOnCell ignored); _build_face_face_connectivity proved (ghost witness table + recursive counting function): positions of row f are in bijection with the interior edges of f, i.e. the face across each shared edge exactly once per edge, padding only at the end; _populate_edge_face / node_face / face_face plumbing proved in dataflow form; slicing bounded'
+LEVEL_TEXT = '_slice_face_indices proved to drop every incidence table of the source grid (rebuilt on the subset); the edge kernels of difference / gradient proved not to write the edge-face table of the grid they are handed (frame obligations); _build_edge_face_connectivity proved with loop invariants for every manifold face-edge table (ghost fa/fb/pos): f listed in row e iff e is an edge of f, boundary = (face, FILL); _build_node_faces_connectivity proved (four loop invariants over the dict-of-lists state): f listed in row n iff n is a corner of f, padding only at the end, standard dtype; _construct_hole_edge_indices proved (exactly the one-face edges, increasing); MPAS cellsOnCell / cellsOnVertex / verticesOnCell parsers proved (source-supplied tables re-indexed, padding behind nEdgesOnCell ignored); _build_face_face_connectivity proved (ghost witness table + recursive counting function): positions of row f are in bijection with the interior edges of f, i.e. the face across each shared edge exactly once per edge, padding only at the end; _populate_edge_face / node_face / face_face plumbing proved in dataflow form; slicing bounded'
 LEVEL_NOTE = "manifoldness is the property's precondition (ghost functions); np.where model; finite-scope instances only refute"
